@@ -1326,6 +1326,46 @@ class SharedSpaceOperations:
         else:
             return False, base.interface
 
+    def _check_derived_relrefs(self, nodes, excluded=None, removed=()):
+        """Check that the relative references to be derived are in scope
+
+        A space derives each reference from the first base that defines
+        the name. If that reference is in the ``relative`` mode,
+        its value must be relative to the space, otherwise
+        re-deriving the space raises half-way.
+        This check is made before anything is changed.
+
+        Args:
+            nodes: spaces to be re-derived, in ``self._graph``
+            excluded: a defined reference that is about to be deleted
+            removed: spaces that are about to be deleted
+        """
+        for node in nodes:
+            space = self._graph.to_space(node)
+            names = set()
+            for base in self._get_space_bases(space):
+                for name, ref in base.own_refs.items():
+                    if (name in names or not ref.is_defined()
+                            or ref is excluded):
+                        continue
+                    names.add(name)     # The first base defining the name
+                    own = space.own_refs.get(name)
+                    if (own is not None and own.is_defined()
+                            and own is not excluded):
+                        continue
+                    if ref.refmode != "relative" or not ref.has_interface():
+                        continue
+                    value = ref.interface._impl.idstr
+                    if any(value == n or value.startswith(n + ".")
+                           for n in removed):
+                        continue    # The value is about to be deleted
+                    if not self._graph.get_relative(
+                            node, base.idstr, value):
+                        raise ValueError(
+                            "Relative reference %s.%s out of scope" %
+                            (space.get_fullname(), name)
+                        )
+
 
 class SpaceManager(SharedSpaceOperations):
 
@@ -1366,6 +1406,9 @@ class SpaceManager(SharedSpaceOperations):
         self.update_subs(space, skip_self=False)
 
     def del_ref(self, space, name):
+        self._check_derived_relrefs(
+            self._graph.ordered_subs(space.idstr),
+            excluded=space.own_refs[name])
         space.on_del_ref(name)
         self.update_subs(space, skip_self=False)
 
@@ -1832,6 +1875,9 @@ class SpaceUpdater(SharedSpaceOperations):
 
             self._check_name_conflict(mro, desc)
 
+        self._check_derived_relrefs(itertools.chain(
+            {node}, nx.descendants(self._graph, node)))
+
         self._instructions.append(
             Instruction(self._update_derived_space, (node,)))
         for _,  v in nx.edge_dfs(self._graph, node):
@@ -1858,6 +1904,9 @@ class SpaceUpdater(SharedSpaceOperations):
         for n in itertools.chain({node}, nx.descendants(
                 self._graph, node)):
             self._graph.get_mro(n)
+
+        self._check_derived_relrefs(itertools.chain(
+            {node}, nx.descendants(self._graph, node)))
 
         self._instructions.append(
             Instruction(self._update_derived_space, (node,))
@@ -1899,6 +1948,8 @@ class SpaceUpdater(SharedSpaceOperations):
         # check before anything is changed
         for v in subs:
             self._graph.get_mro(v)
+
+        self._check_derived_relrefs(subs, removed=nodes_removed)
 
         self._instructions.execute()
         self._update_manager()
